@@ -128,6 +128,62 @@ func randomProgram(r *rand.Rand) []Op {
 	return prog
 }
 
+// boundaryPrograms are programs around the places where field widths of the
+// cross-reference data change: object numbers beyond 255 (references
+// allocated but never written, then an object stream), and files whose
+// cross-reference section starts near byte 65536.  The number of allocated
+// references stays below the Reader's documented cap on declared
+// cross-reference entries (8192 + 32 per raw byte of the xref stream): a
+// small file declaring more is refused on purpose.
+func boundaryPrograms(r *rand.Rand, n, maxAlloc int) [][]Op {
+	var out [][]Op
+	e := func(ops ...Op) {
+		for i := range ops {
+			if ops[i].Ns == nil {
+				ops[i].Ns, ops[i].Vs = []int{}, []string{}
+			}
+		}
+		out = append(out, ops)
+	}
+	for i := 0; i < n; i++ {
+		switch i % 4 {
+		case 0: // many allocated numbers, then compressed objects and a plain one
+			k := []int{250, 253, 254, 255, 256, 300, 4000, 8000}[r.Intn(8)]
+			if k > maxAlloc {
+				k = 250 + r.Intn(50)
+			}
+			e(Op{Op: "AllocN", K: k}, Op{Op: "WriteCompressed", Ns: []int{2, 1}, Vs: []string{"a", "b"}}, Op{Op: "Put", N: 3, V: "a"}, Op{Op: "Close"})
+		case 1:
+			k := []int{253, 255, 256, 7000}[r.Intn(4)]
+			if k > maxAlloc {
+				k = 250 + r.Intn(50)
+			}
+			e(Op{Op: "Put", N: 1, V: "b"}, Op{Op: "AllocN", K: k}, Op{Op: "OpenStream", N: 2, V: "a", Lg: "none"}, Op{Op: "StreamWrite", K: 2},
+				Op{Op: "CloseStream"}, Op{Op: "WriteCompressed", Ns: []int{3}, Vs: []string{"a"}}, Op{Op: "Close"})
+		default: // the end of the body lands near 65536
+			pad := r.Intn(512)
+			k := 125
+			if r.Intn(4) == 0 {
+				k = 123 + r.Intn(4)
+			}
+			e(Op{Op: "Put", N: 1, V: "a"}, Op{Op: "OpenStream", N: 2, V: "b", Lg: "none"}, Op{Op: "StreamWrite", K: 2},
+				Op{Op: "StreamWrite", K: k, Pad: pad}, Op{Op: "CloseStream"}, Op{Op: "WriteCompressed", Ns: []int{4}, Vs: []string{"a"}}, Op{Op: "Close"})
+		}
+	}
+	return out
+}
+
+// BoundaryJobs pairs the boundary programs with configurations of the family.
+func BoundaryJobs(ctx *core.Ctx, f Family, n, maxAlloc int) []Job {
+	cfgs := configsOf(f)
+	r := ctx.Rand("boundary-" + f.String())
+	var jobs []Job
+	for _, p := range boundaryPrograms(r, n, maxAlloc) {
+		jobs = append(jobs, Job{Cfg: cfgs[r.Intn(len(cfgs))], Prog: p, Seed: r.Int63()})
+	}
+	return jobs
+}
+
 // Job is one (program, configuration, seed) to execute.
 type Job struct {
 	Cfg  Config
@@ -200,7 +256,7 @@ func ExecuteAll(jobs []Job) ([]Run, error) {
 func progKey(p []Op) string {
 	var b strings.Builder
 	for _, o := range p {
-		fmt.Fprintf(&b, "%s%d.%d%s%d%s%v%v%s;", o.Op, o.N, o.G, o.V, o.K, o.Lg, o.Ns, o.Vs, o.Why)
+		fmt.Fprintf(&b, "%s%d.%d%s%d+%d%s%v%v%s;", o.Op, o.N, o.G, o.V, o.K, o.Pad, o.Lg, o.Ns, o.Vs, o.Why)
 	}
 	return b.String()
 }
@@ -313,6 +369,27 @@ func run(ctx *core.Ctx) error {
 			ctx.Ev.Eval(1)
 			if r.Closed && len(r.Written) >= 2 {
 				ctx.Ev.Distinct(fmt.Sprintf("%+v|%s", r.Cfg, progKey(jobs[i].Prog)))
+			}
+		}
+		// boundary programs (object numbers / offsets around 2^8 and 2^16)
+		bjobs := BoundaryJobs(ctx, f, ctx.Pick(24, 240), 8000)
+		bruns, err := ExecuteAll(bjobs)
+		if err != nil {
+			return err
+		}
+		bbad, err := core.JudgeCases(ctx, core.TLCOpts{Dir: "file", Module: "Trace_PdfWriter", Cfg: "Trace_PdfWriter_big_" + f.String() + ".cfg",
+			Timeout: ctx.Dur(10, 40), XssMB: 512, XmxMB: 3000}, bruns, 6, 8)
+		if err != nil {
+			return err
+		}
+		for _, b := range bbad {
+			key, what := classifyFailure(bruns[b])
+			ctx.Violation(key+"/boundary", what, map[string]any{"cfg": bruns[b].Cfg, "prog": bjobs[b].Prog, "seed": bjobs[b].Seed})
+		}
+		for i, r := range bruns {
+			ctx.Ev.Eval(1)
+			if r.Closed {
+				ctx.Ev.Distinct(fmt.Sprintf("%+v|%s", r.Cfg, progKey(bjobs[i].Prog)))
 			}
 		}
 		if len(runs) > 0 {
